@@ -7,34 +7,7 @@ From STFS Require Import Str Db Tape Index Ops Fs Diff Norm TapeLemmas StrLemmas
   T02Ns T02Db T02Ops T02Reads T02Str T02Closed T02Calls.
 Open Scope N_scope.
 
-(* ---------- the size record round-trips (sizes below 10^40: the rendering has 40 digits at most) *)
-Lemma undecimal_digits fuel : forall n acc, n < 10 ^ N.of_nat fuel ->
-  exists k, forall a, undecimal_aux (digits_aux fuel n acc) a = undecimal_aux acc (a * 10 ^ k + n).
-Proof.
-  induction fuel as [|f IH]; intros n acc Hn.
-  - cbn in Hn. assert (n = 0) by lia. subst n. exists 0. intro a. cbn [digits_aux]. f_equal. cbn. lia.
-  - cbn [digits_aux].
-    assert (Hd : n mod 10 < 10) by (apply N.mod_lt; lia).
-    assert (Hdm : n = 10 * (n / 10) + n mod 10) by (apply N.div_mod; lia).
-    assert (STEP : forall a, undecimal_aux ((48 + n mod 10) :: acc) a = undecimal_aux acc (a * 10 + n mod 10)).
-    { intro a. cbn [undecimal_aux]. replace ((48 <=? 48 + n mod 10) && (48 + n mod 10 <=? 57)) with true by lia.
-      f_equal. lia. }
-    destruct (n / 10 =? 0) eqn:E.
-    + exists 1. intro a. rewrite STEP. f_equal. apply N.eqb_eq in E. cbn. lia.
-    + assert (Hq : n / 10 < 10 ^ N.of_nat f).
-      { rewrite Nat2N.inj_succ, N.pow_succ_r' in Hn. apply N.div_lt_upper_bound; lia. }
-      destruct (IH (n / 10) ((48 + n mod 10) :: acc) Hq) as (k & Hk). exists (N.succ k). intro a.
-      rewrite Hk, STEP. f_equal. rewrite N.pow_succ_r'. lia.
-Qed.
-
-Lemma undecimal_decimal_eq n : n < 10 ^ 40 -> undecimal (decimal n) = Some n.
-Proof.
-  intro Hn. unfold undecimal, decimal.
-  pose proof (digits_aux_nonempty 40 n [] ltac:(left; discriminate)) as H1.
-  destruct (undecimal_digits 40 n [] Hn) as (k & Hk).
-  destruct (digits_aux 40 n []) as [|c0 r] eqn:E; [contradiction|].
-  rewrite Hk. cbn [undecimal_aux]. reflexivity.
-Qed.
+(* the size record round-trips: [undecimal_decimal_eq], in C01Hdr *)
 
 Section Create.
 Variable hr : bool.
